@@ -30,7 +30,7 @@ EXPLANATION = (
     'arithmetic; (4) the case labels of the material switch in endGameEval are closed under MatId::mirror, and for every mirrored pair '
     'that ends in a helper call the black call is the sigma-image of the white call (same helper, negated result, colour-swapped '
     'arguments with squares rotated by 180 degrees, side to move inverted, score negated).')
-UNDECIDED = ('numerical equality of incremental and from-scratch network outputs, equality of SIMD kernels (value-level), '
+UNDECIDED = ('numerical equality of incremental and from-scratch network outputs and of the SIMD kernels beyond the group-structure clause 5 (value-level), '
              'left-right mirror symmetry of the network, endgame cases that are written inline rather than as helper calls (listed as not covered).')
 ASSUMPTIONS = ['position domain: at most 30 non-king men', 'the helper evaluations (k*Eval) themselves are written from white\'s point of view']
 
@@ -45,6 +45,15 @@ def run(fb, rep, tier):
     c2_queues(fb, rep)
     c3_cache(fb, rep)
     c4_symmetry(fb, rep)
+    c5_accumulator(fb, rep)
+
+
+# SIMD kernels are selected by compile definitions: the thorough tier re-runs the rules on these builds too
+EXTRA_VARIANTS = [
+    ('ssse3', ['-DUSE_SSSE3', '-mssse3']),
+    ('avx2', ['-DUSE_SSSE3', '-DUSE_AVX2', '-mssse3', '-mavx2']),
+    ('avx512', ['-DUSE_SSSE3', '-DUSE_AVX2', '-DUSE_AVX512', '-mssse3', '-mavx2', '-mavx512f', '-mavx512bw']),
+]
 
 
 def _strip(t):
@@ -519,3 +528,72 @@ def _sigma_image(fb, f, cw, cb):
 
 def _norm(s):
     return s.replace(' ', '').replace('(', '').replace(')', '')
+
+
+# --------------------------------------------------------------------------- .5 accumulator arithmetic
+
+WRAP_ADD = {'_mm_add_epi16', '_mm256_add_epi16', '_mm512_add_epi16', 'vaddq_s16'}
+WRAP_SUB = {'_mm_sub_epi16', '_mm256_sub_epi16', '_mm512_sub_epi16', 'vsubq_s16'}
+MOVES = {'_mm_load_si128', '_mm256_load_si256', '_mm512_load_si512', 'vld1q_s16', '_mm_store_si128', '_mm256_store_si256', '_mm512_store_si512', 'vst1q_s16',
+         '_mm_loadu_si128', '_mm256_loadu_si256', '_mm512_loadu_si512', '_mm_storeu_si128', '_mm256_storeu_si256', '_mm512_storeu_si512'}
+ELEM = {'Vector::operator()', 'Matrix::operator()'}
+
+
+def c5_accumulator(fb, rep):
+    """K10 group structure of the first-layer accumulator: incremental updates (add the rows of the pieces that
+    appeared, subtract the rows of those that vanished) agree with a from-scratch sum, in every order and after
+    take-backs, exactly when the update is an action of an abelian group - wrap-around 16-bit addition.  So in
+    every build variant the only operations on the data path of addSubWeights are element / vector loads and
+    stores and *wrapping* 16-bit add and subtract: no clamping, no saturating intrinsic (they are not
+    invertible and not associative), and the from-scratch path goes through the same routine."""
+    clause = 'C07.5'
+    fs = [f for f in fb.funcs.values() if f.has_cfg and f.sname == 'addSubWeights' and f.d.get('targs')]
+    rep.floor(clause, 'instantiations of addSubWeights', len(fs), 1)
+    for f in sorted(fs, key=lambda x: x.key):
+        tag = 'addSubWeights<%s>' % ','.join(f.d['targs'])
+        acc = f.d['params'][0]['id']
+        wgt = f.d['params'][1]['id']
+        other = []
+        n_add = n_sub = 0
+        bad_upd = []
+        for b, i, e in f.events():
+            if e.get('k') == 'call':
+                n = cname(e)
+                if n in WRAP_ADD:
+                    n_add += 1
+                elif n in WRAP_SUB:
+                    n_sub += 1
+                elif n in MOVES or n in ELEM:
+                    pass
+                else:
+                    other.append((n, e.get('ln')))
+            elif e.get('k') == 'asg':
+                l = _strip(e.get('l'))
+                if isinstance(l, dict) and l.get('k') == 'call' and cname(l) == 'Vector::operator()' and isinstance(_strip(l.get('recv')), dict) and _strip(l['recv']).get('id') == acc:
+                    r = _strip(e.get('r'))
+                    is_w = isinstance(r, dict) and r.get('k') == 'call' and cname(r) == 'Matrix::operator()' and _strip(r.get('recv')).get('id') == wgt
+                    if e.get('op') == '+=' and is_w:
+                        n_add += 1
+                    elif e.get('op') == '-=' and is_w:
+                        n_sub += 1
+                    elif e.get('op') == '=' and isinstance(r, dict) and r.get('k') == 'bin' and r.get('op') in ('+', '-') and \
+                            all(n_.get('k') != 'call' or cname(n_) in ELEM for n_ in walk(r)):
+                        if r['op'] == '+':
+                            n_add += 1
+                        else:
+                            n_sub += 1
+                    else:
+                        bad_upd.append((show(e, 120), e.get('ln')))
+        rep.ob(clause, 'K10 group structure', '%s: the accumulator is only loaded, stored, and combined with weight rows by wrapping 16-bit add / subtract' % tag,
+               not other and not bad_upd, f.where, ('other operations on the data path: %s; ' % other if other else '') + ('non-wrapping updates: %s' % bad_upd if bad_upd else '') or
+               '%d wrapping additions, %d wrapping subtractions' % (n_add, n_sub), f.sname)
+        rep.ob(clause, 'K10 inverse pair', '%s: additions and subtractions come in matching numbers (every add kernel has its subtract twin)' % tag, n_add == n_sub and n_add > 0, f.where,
+               '%d / %d' % (n_add, n_sub), f.sname)
+    # incremental and from-scratch computation share the routine
+    cw = [f for f in fb.funcs.values() if f.has_cfg and f.sname == 'NNEvaluator::computeL1WB']
+    rep.floor(clause, 'NNEvaluator::computeL1WB', len(cw), 1)
+    for f in cw:
+        calls = [e for _, _, e in f.events() if e.get('k') == 'call' and fb.funcs.get(e.get('f')) is not None and fb.funcs[e['f']].sname == 'addSubWeights']
+        full = [e for e in calls if (_strip(e['args'][5]) or {}).get('cv') == 0]
+        rep.ob(clause, 'K10 sibling agreement', 'computeL1WB: the incremental update and the full refresh both go through addSubWeights (the refresh with an empty subtract list)',
+               len(calls) >= 2 and len(full) >= 1 and len(full) < len(calls), f.where, '%d calls, %d with a constant-empty subtract list' % (len(calls), len(full)), f.sname)
